@@ -27,6 +27,7 @@ from ._netstacks import conform, quiet_console
 
 SPEC_DIR = env.SPECS + "/net"
 PEER = ("10.0.0.9", 5009)
+LOSS = (errno.ECONNRESET, errno.ETIMEDOUT, errno.EHOSTUNREACH, errno.ENETRESET, errno.ENETUNREACH, errno.EHOSTDOWN)
 FLAVORS = ("client", "clienttls", "patron", "stack")
 ACTIONS = ["Advance", "ServerUp", "ServerDown", "Reset", "Refuse", "UserReopen", "Service"]
 INVS = ["TypeOK", "ConnectedIsEstablished", "NeverBoth", "AddressesMatchLiveSocket"]
@@ -83,8 +84,9 @@ class ReconnectAdapter:
         env.use_repo()
         from ioflo.aio.tcp import clienting
         from ioflo.aio.http import clienting as hclienting
-        from ioflo.aio.proto import stacking
+        from ioflo.aio.proto import packeting, stacking
         from ioflo.aid.timing import Stamper
+        self.packeting = packeting
         from ioflo.base import storing
         quiet_console()
         self.flavor = flavor
@@ -151,14 +153,21 @@ class ReconnectAdapter:
             rep = "live"
             if self.flavor == "stack" and self.top.local.ha != live.sockname:
                 rep = "other"
-        return {"alive": bool(c.connected and not c.cutoff), "cutoff": bool(c.cutoff), "opens": opens, "tries": tries,
-                "rep": rep}
+        out = {"alive": bool(c.connected and not c.cutoff), "cutoff": bool(c.cutoff), "opens": opens, "tries": tries}
+        if out["alive"]:
+            out["rep"] = rep     # which addresses a client reports while it is not connected is not part of the statement
+        return out
 
     def fingerprint(self):
         """hidden state for the walk only (never compared): time left on the reconnect timer, negative when the timer
         expired that long ago (a pause in servicing), cut at a few timeouts so that the walk stays finite"""
         t = self.conn.timeout
-        return max(self.conn.timer.stop - self.clock.stamp, -4.0 * t) if t > 0.0 else 0.0
+        lag = max(self.conn.timer.stop - self.clock.stamp, -4.0 * t) if t > 0.0 else 0.0
+        live = self.live()
+        pend = None
+        if live is not None:    # what the environment holds ready on the live socket (which way a loss will show)
+            pend = tuple(sorted((op, tuple(r[0] for r in rs)) for op, rs in live.pending().items()))
+        return (lag, live is None, pend, bool(self.conn.txes))
 
     def step(self, name, key, cands):
         args = key[1]
@@ -169,8 +178,19 @@ class ReconnectAdapter:
             pass            # the model answers the next attempt accordingly
         elif name == "Reset":
             live = self.live()
+            kind = str(args[0])
             self.nreset += 1
-            live.push("recv", dn.CLOSED if self.nreset % 2 else dn.err(errno.ECONNRESET))
+            loss = LOSS[self.nreset % len(LOSS)] if self.nreset > 1 else errno.ECONNRESET
+            if kind == "close":
+                live.push("recv", dn.CLOSED)
+            elif kind == "abort":
+                live.push("recv", dn.err(loss))
+            else:       # the loss shows at the next send: the application has data queued
+                if self.flavor == "stack":
+                    self.top.transmit(self.packeting.Packet(stack=self.top, packed=b"x"))
+                else:
+                    self.conn.tx(b"x")
+                live.push("send", dn.err(loss))
         elif name == "UserReopen":
             if not self.reopen():
                 raise AssertionError("reopen failed over the socket double")
